@@ -10,7 +10,8 @@ pub struct StyleController;
 
 impl Controller for StyleController {
     fn is_matching(request: &Request, _connection: &ConnectionInfo) -> bool {
-        request.method == METHOD.get &&request.request_uri == "/style.css"
+        // query and fragment are not part of the path
+        request.method == METHOD.get && request.get_uri_path().unwrap_or(request.request_uri.to_string()) == "/style.css"
     }
 
     fn process(_request: &Request, mut response: Response, _connection: &ConnectionInfo) -> Response {
